@@ -10,7 +10,6 @@ across fresh processes (every segment of a history runs in its own subprocess: `
 """
 from __future__ import annotations
 
-import copy
 import hashlib
 import json
 import os
@@ -239,7 +238,7 @@ def alt_value(kind: str, f: str, cfg: dict, rng, profile_names):
         if f in ("propensity_level", "link_count", "union_block_count", "artifact_level"):
             return v - rng.choice([1, 2, 3])
         return max(0, v + rng.choice([-2, -1, 1, 3, 7])) if v > 2 else v + rng.choice([1, 2, 5])
-    raise ValueError(f"no alternative for {kind}.{f}={v!r}")
+    return None  # a field of a type this harness has no alternative for: not exercised (visible in coverage)
 
 
 def make_profile_names():
@@ -333,22 +332,26 @@ class History:
         return out
 
 
-def standard_history(hid, kind, base, star_fields, chain_fields, rng, profile_names, first_handles, n_replay=None,
+def standard_history(hid, kind, base, star_fields, chain_fields, rng, profile_names, first_handles,
                      extra_after_import=True, chain_handles=None) -> History:
     """new memoizers -> star (base, base[f], base, ...) -> chain (cumulative one-field changes) -> export, json
-    save, load, re-import (alias and copy) -> restart -> file memoizer on the old file, in-memory memoizer on the
-    loaded json -> replay of every provider seen"""
+    save, load, re-import (alias and copy; the file memoizer's own file imported into an in-memory memoizer)
+    -> restart -> file memoizers on the old file and on the exported json, in-memory memoizers on the loaded
+    jsons -> replay of every provider seen through every memoizer that should know it (all hits)"""
     H = History(hid, kind)
     mem, fil = {"inmem": 0}, {"file": "a.json"}
     H.op(op="new_inmem", saved=None)
     H.op(op="new_file", path="a.json")
-    handles = [h for h in (mem, fil) if ("inmem" in h and "inmem" in first_handles) or ("file" in h and "file" in first_handles)]
+    by_name = {"inmem": mem, "file": fil}
     seen: list[dict] = []
+    asked = {"inmem": [], "file": []}
 
     def ask(cfg, **meta):
-        for h in (handles if meta["mode"] != "chain" or chain_handles is None else
-                  [x for x in (mem, fil) if next(iter(x)) in chain_handles]):
-            H.request(h, cfg, **meta)
+        names = first_handles if (meta["mode"] != "chain" or chain_handles is None) else chain_handles
+        for n in names:
+            H.request(by_name[n], cfg, **meta)
+            if cfg not in asked[n]:
+                asked[n].append(cfg)
         if cfg not in seen:
             seen.append(cfg)
 
@@ -373,30 +376,37 @@ def standard_history(hid, kind, base, star_fields, chain_fields, rng, profile_na
     # export / import inside the process
     H.op(op="export", ref=0)
     H.op(op="save", ref=0, path="x.json")
-    H.op(op="load", path="x.json")            # -> ref 1 (a copy)
+    H.op(op="load", path="x.json")            # -> ref 1: a copy of the exported dict
+    H.op(op="load", path="a.json")            # -> ref 2: the file memoizer's store, imported
     H.op(op="new_inmem", saved=1)
+    H.op(op="new_inmem", saved=2)
     H.op(op="new_inmem", saved=0)             # the exported dict itself: an alias
-    sample = seen if n_replay is None else seen[:1] + rng.sample(seen[1:], min(n_replay, len(seen) - 1))
-    for cfg in sample:
+    for cfg in asked["inmem"]:
         H.request({"inmem": 1}, cfg, mode="imported", field=None)
+    for cfg in asked["file"]:
+        H.request({"inmem": 2}, cfg, mode="imported", field=None)
     if extra_after_import and kind == "MinimalEnvironmentProvider":
         fresh = dict(base)
         fresh["level"] = base["level"] + 11
         H.request({"inmem": 1}, fresh, mode="imported-miss", field="level", prev=base)   # miss in the copy only
         H.request({"inmem": 0}, fresh, mode="alias-miss", field="level", prev=base)      # so a miss here too
         H.request({"inmem": 1}, fresh, mode="imported", field=None)
-        seen.append(fresh)
+        asked["inmem"].append(fresh)
         H.op(op="save", ref=1, path="x.json")
     H.op(op="restart")
     H.op(op="new_file", path="a.json")        # the file exists: reused
     H.op(op="load", path="x.json")            # -> ref 0 of the new process
+    H.op(op="load", path="a.json")            # -> ref 1
     H.op(op="new_inmem", saved=0)
+    H.op(op="new_inmem", saved=1)
+    H.op(op="new_file", path="x.json")        # a file memoizer over the exported json
     H.op(op="request", h={"inmem": 3}, p={"kind": kind, "id": 10 ** 6, "cfg": base}, meta={"mode": "dangling"})
-    sample = seen if n_replay is None else seen[:1] + rng.sample(seen[1:], min(n_replay, len(seen) - 1))
-    for cfg in sample:
+    for cfg in asked["inmem"]:
         H.request({"inmem": 0}, cfg, mode="after-restart", field=None)
-        if "file" in first_handles:
-            H.request(fil, cfg, mode="after-restart", field=None)
+        H.request({"file": "x.json"}, cfg, mode="after-restart", field=None)
+    for cfg in asked["file"]:
+        H.request(fil, cfg, mode="after-restart", field=None)
+        H.request({"inmem": 1}, cfg, mode="after-restart", field=None)
     return H
 
 
@@ -549,13 +559,15 @@ def main(ck):
                                       extra_after_import=False))
     else:
         for i in range(2):
+            # base0: every field through an in-memory memoizer (+ a chain through a file-backed one);
+            # base1: every field through a file-backed memoizer
             base = baseline_base(rng, explicit=(i == 1))
             order = rng.sample(bfields, len(bfields))
-            star = suspicious[KINDS[1]] + [f for f in (order if i == 0 else order[:10]) if f not in suspicious[KINDS[1]]]
-            chain = rng.sample(bfields, len(bfields)) if i == 0 else []
+            star = suspicious[KINDS[1]] + [f for f in order if f not in suspicious[KINDS[1]]]
+            chain = rng.sample(bfields, 10) if i == 0 else []
             chain.sort(key=lambda f: f != "jobtype")
             hists.append(standard_history(f"base{i}", KINDS[1], base, star, chain, rng, profile_names,
-                                          ("inmem", "file") if i == 0 else ("inmem",), extra_after_import=False,
+                                          ("inmem",) if i == 0 else ("file",), extra_after_import=False,
                                           chain_handles=("file",)))
 
     # ------------------------------------------------------------------ real code: segment 1 in fresh processes
